@@ -489,7 +489,7 @@ def run_leak_pimpl(ctx, res, drv, n):
             res.oblig("leakp:native-build", False, "machinery", log[-1500:])
         else:
             def runk(k):
-                rc, out, err = core.sh([exe, str(k)], timeout=60, env={"ASAN_OPTIONS": "detect_leaks=1:exitcode=23", "LSAN_OPTIONS": "exitcode=23"})
+                rc, out, err = core.sh([exe, str(k)], timeout=900, env={"ASAN_OPTIONS": "detect_leaks=1:exitcode=23", "LSAN_OPTIONS": "exitcode=23"})
                 kinds = set()
                 if "attempting double-free" in err: kinds.add("doubleFree")
                 if "heap-use-after-free" in err: kinds.add("useafterfree")
@@ -589,7 +589,7 @@ def run_ubfree(ctx, res, n_safe, n_planted, nargs, cli_opts):
         vecs = [c04_gen.arg_vectors(rng, f, nargs) for f in fns]
         def runk(k):
             args = [str(x) for t in vecs[k] for x in t]
-            rc, out, err = core.sh([exe, str(k)] + args, timeout=120, env={"ASAN_OPTIONS": "detect_leaks=0", "UBSAN_OPTIONS": "print_stacktrace=0"})
+            rc, out, err = core.sh([exe, str(k)] + args, timeout=900, env={"ASAN_OPTIONS": "detect_leaks=0", "UBSAN_OPTIONS": "print_stacktrace=0"})
             last = [l for l in out.split("\n") if l.startswith("ARGS")]
             what = ""
             m = re.search(r"runtime error: ([^\n]*)", err) or re.search(r"AddressSanitizer: ([\w-]+)", err)
